@@ -106,6 +106,10 @@ Next ==
                         ELSE IF e.prop = "C06" /\ On("MON_C06")
                         THEN (IF e.panics = 0 /\ e.min_maxtx >= 1 /\ e.max_maxtx <= 255 /\ e.min_s2d_ms > 0 THEN {}
                               ELSE {"Config::new_lan/new_wan-panicked-or-produced-an-illegal-config"})
+                        ELSE IF e.prop = "C13"
+                        THEN \* Timer's Ord (runtime.rs) is the order TimerSeq the specification uses in MC_Cluster
+                             (IF \A i, j \in DOMAIN e.order : i < j => TimerSeq(e.order[i]) < TimerSeq(e.order[j]) THEN {}
+                              ELSE {"Timer-ordering-differs-from-the-specification's-TimerSeq"})
                         ELSE {}
                   nv == IF gv = {} THEN <<>>
                         ELSE <<[line |-> l, run |-> env.run, call |-> "group:" \o e.kind, v |-> (e.prop :> gv)]>>
